@@ -35,6 +35,8 @@ def shards(tier, seed):
     for k, pair in enumerate(["src", "dst", "pgn", "same-src-other-pgn"]):
         out.append({"name": f"enum-2streams-{pair}", "kind": "enum2", "pair": pair, "tier": tier, "seed": seed})
     out.append({"name": "enum-3streams", "kind": "enum3", "tier": tier, "seed": seed})
+    for i in range(2 if tier == "quick" else 8):
+        out.append({"name": f"same-block-{i}", "kind": "sameblock", "tier": tier, "seed": seed})
     n_rand = 6 if tier == "quick" else 192
     for i in range(n_rand):
         out.append({"name": f"random-{i}", "kind": "random", "i": i, "tier": tier, "seed": seed})
@@ -46,10 +48,11 @@ def shards(tier, seed):
 # ---------------------------------------------------------------------------
 
 class Msg:
-    __slots__ = ("stream", "index", "payload", "seq", "nframes")
+    __slots__ = ("stream", "index", "payload", "seq", "nframes", "obs")
 
     def __init__(self, stream, index, nbytes, seq=None):
         self.stream, self.index = stream, index
+        self.obs = None
         sid = stream[3]
         body = bytes(((sid * 37 + index * 11 + i * 3) % 251) + 1 for i in range(nbytes - 2))
         self.payload = HEAD + body
@@ -87,8 +90,31 @@ def expected_returns(events):
     return out
 
 
+class RealMsg(Msg):
+    """A message of a real database definition: what must come back is the decode of its payload (taken once from a
+    fresh decoder given the payload pre-assembled)."""
+    __slots__ = ()
+
+    def __init__(self, stream, index, payload: bytes, seq, obs):
+        self.stream, self.index, self.payload, self.seq, self.obs = stream, index, payload, seq % 8, obs
+        nbytes = len(payload)
+        self.nframes = 1 if nbytes <= 6 else 1 + (nbytes - 6 + 6) // 7
+
+
+def obs_real(r):
+    return (r.PGN, r.source, r.destination, tuple((f.id, repr(f.raw_value)) for f in r.fields))
+
+
+def obs_of_msg(m):
+    if m.obs is not None:
+        return m.obs
+    return (m.stream[0], m.stream[1], m.stream[2] if ((m.stream[0] >> 8) & 0xFF) < 240 else 255, int.from_bytes(m.payload, "little"))
+
+
 def observe(r):
     """(pgn, src, dst, payload-int) from a returned fallback message."""
+    if r.PGN not in (126720, 130816):
+        return obs_real(r)
     v = 0
     for f in r.fields:
         x = f.raw_value if not isinstance(f.value, (bytes, bytearray)) else int.from_bytes(f.value, "big")
@@ -139,11 +165,9 @@ def run_history(events, acc, label, faults: bool, formats=("ebyte",)):
                     continue
                 o = observe(r)
                 got.append(o)
-                want = None if e is None else (e.stream[0], e.stream[1], e.stream[2] if ((e.stream[0] >> 8) & 0xFF) < 240 else 255,
-                                               int.from_bytes(e.payload, "little"))
+                want = None if e is None else obs_of_msg(e)
                 if e is None:
-                    sent = any(o == (mm.stream[0], mm.stream[1], mm.stream[2] if ((mm.stream[0] >> 8) & 0xFF) < 240 else 255,
-                                     int.from_bytes(mm.payload, "little")) for mm, _ in events)
+                    sent = any(o == obs_of_msg(mm) for mm, _ in events)
                     key2 = "message-returned-again-or-early" if sent else "payload-never-sent-returned"
                     acc.violation(key2, f"{label}: unexpected message at position {pos} (payload {'was' if sent else 'was NOT'} one of the sent payloads)",
                                   witness(events, label, pad, pos, o))
@@ -164,7 +188,8 @@ def run_history(events, acc, label, faults: bool, formats=("ebyte",)):
 
 def witness(events, label, pad, pos, observed=None):
     return {"label": label, "pad": pad, "position": pos, "observed": observed,
-            "events": [[list(m.stream), m.index, i, len(m.payload)] for m, i in events][:120]}
+            "events": [[list(m.stream), m.index, i, len(m.payload), m.seq] for m, i in events][:120],
+            "real_payloads": {f"{m.stream[0]}#{m.index}": m.payload.hex() for m, _ in events if m.obs is not None} or None}
 
 
 # ---------------------------------------------------------------------------
@@ -359,6 +384,62 @@ def random_histories(spec, acc):
     acc.sample({"kind": "random", "streams": len(streams)})
 
 
+def sameblock(spec, acc):
+    """Two fast-packet PGNs of the same 256-PGN block (equal upper identifier bytes, e.g. 129029 and 129039) sent by
+    ONE source to the broadcast address, interleaved: streams are told apart by the whole PGN number."""
+    dbx = refdb.db()
+    rng = gen.rng_for(spec["seed"], ID, spec["name"])
+    quick = spec["tier"] == "quick"
+    cands = [d for d in dbx.defs if d.supported and d.fixed_layout and d.type == "Fast" and d.length and 8 <= d.length <= 60 and not d.match_fields
+             and ((d.pgn >> 8) & 0xFF) >= 240 and not any(f.offset is not None for f in d.fields) and len(dbx.by_pgn[d.pgn]) == 1]
+    blocks = {}
+    for d in cands:
+        blocks.setdefault(d.pgn >> 8, []).append(d)
+    pairs = [(a, b) for ds in blocks.values() for a in ds for b in ds if a.pgn < b.pgn]
+    if not pairs:
+        acc.inconclusive_because("no two fast-packet PGNs of one 256-PGN block in the database")
+        return
+    ref = NMEA2000Decoder()
+
+    def script(d, sid, shapes):
+        ev = []
+        seq = rng.randrange(8)
+        for k, shape in enumerate(shapes):
+            for _ in range(30):
+                pb = dbx.pack(d, gen.base_raws(d, rng, dbx)).to_bytes(d.length, "little")
+                try:
+                    r = ref.decode_basic_string(wire.plain_line(6, d.pgn, 21, 255, pb), already_combined=True)
+                except Exception:  # noqa: BLE001
+                    r = None
+                if r is not None:
+                    break
+            else:
+                return None
+            seq = (seq + rng.randint(1, 7)) % 8
+            m = RealMsg((d.pgn, 21, 255, sid), k, pb, seq, obs_real(r))
+            idx = list(range(1, m.nframes))
+            if shape == "perm":
+                rng.shuffle(idx)
+            elif shape == "dup" and idx:
+                idx = idx + [rng.choice(idx)]
+                rng.shuffle(idx)
+            elif shape == "loss" and idx:
+                idx.pop(rng.randrange(len(idx)))
+            ev += [(m, 0)] + [(m, i) for i in idx]
+        return ev
+    shapes_list = [("ok",), ("perm",), ("dup", "ok"), ("loss", "ok"), ("ok", "ok")]
+    for rep in range(40 if quick else 1500):
+        a, b = rng.choice(pairs)
+        sa, sb = script(a, 6, rng.choice(shapes_list)), script(b, 7, rng.choice(shapes_list))
+        if sa is None or sb is None:
+            continue
+        # equal and unequal sequence counters on the two streams both occur (random starts)
+        for ev in interleavings(sa, sb, 6 if quick else 30, rng):
+            run_history(ev, acc, f"sameblock {a.pgn}+{b.pgn}", True)
+            acc.count("same_block_histories")
+        acc.cover("same_block_pairs", f"{a.pgn}+{b.pgn}")
+
+
 def run_shard(spec, acc):
     dbx = refdb.db()
     # the fallback definitions must be what HEAD selects, otherwise payloads are not observable
@@ -367,15 +448,25 @@ def run_shard(spec, acc):
         if d is None or not d.fallback:
             acc.inconclusive_because(f"HEAD does not select the fallback definition of PGN {pgn}")
             return
-    {"enum1": enum1, "enum2": enum2, "enum3": enum3, "random": random_histories}[spec["kind"]](spec, acc)
+    {"enum1": enum1, "enum2": enum2, "enum3": enum3, "random": random_histories, "sameblock": sameblock}[spec["kind"]](spec, acc)
 
 
 def replay(w, acc):
     ms = {}
     events = []
-    for st, index, i, nb in w["events"]:
+    real = w.get("real_payloads") or {}
+    ref = NMEA2000Decoder()
+    for rec in w["events"]:
+        st, index, i, nb = rec[:4]
+        seq = rec[4] if len(rec) > 4 else None
         k = (tuple(st), index)
         if k not in ms:
-            ms[k] = Msg(tuple(st), index, nb)
+            hx = real.get(f"{st[0]}#{index}")
+            if hx is not None:
+                pb = bytes.fromhex(hx)
+                r = ref.decode_basic_string(wire.plain_line(6, st[0], st[1], 255, pb), already_combined=True)
+                ms[k] = RealMsg(tuple(st), index, pb, seq or 0, obs_real(r))
+            else:
+                ms[k] = Msg(tuple(st), index, nb, seq=seq)
         events.append((ms[k], i))
     run_history(events, acc, "replay", True)
